@@ -82,6 +82,13 @@ def check_rotate(s):
 
 def main():
     req = json.load(sys.stdin)
+    # earlier calls with other parameters must not influence later ones (no state between calls)
+    for brk in "+&":
+        for ign in (".x", ".~x", ".)", "."):
+            try:
+                make_pair_table("(x.%s.x)" % brk, strand_break=brk, ignore=set(ign))
+            except SecondaryStructureError:
+                pass
     fails = []
     for c in req["cases"]:
         s, brk = c["s"], c.get("brk", "+")
